@@ -104,7 +104,7 @@ func newPairWorld(name string, capacity uint64, init []string, energy *string, h
 	if err != nil {
 		return nil, err
 	}
-	p := &pairWorld{Srv: sw, Dev: key("kDev"), ID: 5, Addr: scriptedServer{Name: "real", Key: sw.Srv, Addr: "10.0.0.1", Port: 7000}}
+	p := &pairWorld{Srv: sw, Dev: key("kDev"), ID: 0, Addr: scriptedServer{Name: "real", Key: sw.Srv, Addr: "10.0.0.1", Port: 7000}}
 	ops := append([]string{"reg:G1:temp", fmt.Sprintf("auth:%d:kDev:%d:G1", p.ID, capacity)}, init...)
 	for _, op := range ops {
 		if r := sw.apply(op); r.Sig != "" {
